@@ -313,6 +313,38 @@ service S { option (so) = true; rpc R (stream .x.y.M) returns (M); rpc Q (M) ret
 ;
 `
 
+// extras24 is a second hand-written parse-only file: edition 2024 constructs (import option, export / local
+// declarations) and type names that start with a keyword component (`export.a.B`, `local.x.Y`, ...), which
+// the grammar re-joins into one identifier through dedicated productions.
+const extras24 = `edition = "2024";
+package e.f;
+import option "o.proto";
+import public "p.proto";
+import option 'q.proto';
+export message EM {
+  export.inner.Type ea = 1;
+  local.x.Y lb = 2;
+  export.a.b.C e2 = 3 [deprecated = true];
+  repeated local.pkg.sub.T r = 4;
+  optional message.inner.Kw k1 = 5;
+  syntax.s.T k2 = 7;
+  stream.returns.rpc k3 = 8;
+  map<string, export.m.V> k4 = 9;
+  local enum LE { export = 0; local = 1 [deprecated = true]; }
+  local message LM {}
+  oneof o { export.q.R oe = 6; }
+  export export = 10;
+  local.local.local local = 11;
+}
+local enum TE { TE_ZERO = 0; }
+export enum XE { XE_ZERO = 0; };
+extend EM { local.z.W xe = 100; }
+service S24 { rpc R (export.i.I) returns (stream local.o.O); }
+`
+
+// handWritten maps the ids of the parse-only skeletons to their text.
+var handWritten = map[string]string{"x": extras, "e24": extras24}
+
 type skelOut struct {
 	ID       string     `json:"id"`
 	Syntax   string     `json:"syntax"`
@@ -385,10 +417,13 @@ func runSkeleton(in *bufio.Scanner, w *bufio.Writer) error {
 		if err := json.Unmarshal(in.Bytes(), &req); err != nil {
 			return err
 		}
-		text := extras
+		text := handWritten[req.ID]
 		if req.Syntax != "" {
 			text = featgen.Render(&featgen.Case{Syntax: req.Syntax, Features: req.Features})[featgen.Main]
 		} else {
+			if text == "" {
+				return fmt.Errorf("no hand-written skeleton %q", req.ID)
+			}
 			req.Syntax = "none"
 		}
 		if req.Features == nil {
